@@ -1394,6 +1394,40 @@ func TestVerifConc(t *testing.T) {
 				w.h.Ungate(withheld)
 			}
 			out.Emit(verifkit.M{"ev": "liveness", "sid": sid, "scenario": "page left while its background load is in flight", "issued": 1, "returned": returned})
+			/* cursor keys on a page whose loaders are still fetching */
+			jtp.VerifSetCache(256)
+			gate2 := make(chan struct{})
+			w.h.Gated(withheld, gate2)
+			kc := &verifConc{verifSession: verifNewSession(w, out, sid, false)}
+			kc.s = NewState(80, 24, kc.callback)
+			moved := 0
+			if err := kc.s.Subcommand("open", w.h.URL(w.startP)); err == nil {
+				for waited := 0; waited < 600; waited++ {
+					kc.s.m.Lock()
+					shown := kc.s.mode != loading
+					kc.s.m.Unlock()
+					if shown {
+						break
+					}
+					time.Sleep(5 * time.Millisecond)
+				}
+				for _, b := range []byte("jkjkkj") {
+					kc.s.Update(b)
+					time.Sleep(time.Millisecond)
+				}
+				close(gate2)
+				w.h.Ungate(withheld)
+				for _, b := range []byte("jkjk") {
+					kc.s.Update(b)
+				}
+				if kc.settle(10 * time.Second) {
+					moved = 1
+				}
+			} else {
+				close(gate2)
+				w.h.Ungate(withheld)
+			}
+			out.Emit(verifkit.M{"ev": "liveness", "sid": sid, "scenario": "cursor keys while the loaders of the page are fetching", "issued": 1, "returned": moved})
 		}
 		if sid%3 == 0 {
 			/* a slow media hook that is abandoned with Esc (or another key) before it exits; afterwards
